@@ -274,6 +274,15 @@ def directed_scripts(variant):
             "cfg grace=1 soft=8 hard=8 tcap=8", "sink 0 lvl=0", "logger 0 sinks=0 lvl=0", "start", "T 1 start", "T 2 start",
             "L 1 0 4 10", "L 2 0 4 10", "K 1000000", "P", "P", "P", "QC 1", "SH 1 256", "L 1 0 4 700", "K 1", "L 2 0 4 10",
             "K 1000000", "P", "P", "P", "P", "Q", "X"]))
+    # unbounded builds: a thread that ran into the maximum capacity (its failure counter is bumped, and nothing ever reports
+    # or resets it for an unbounded queue) and then exits must still be reclaimed — the "unreported counter keeps the
+    # context" rule of the F24 repair is for bounded queues only
+    if variant >= 2:
+        out.append(("dir_unbounded_cap_then_exit", [
+            "cfg grace=0 soft=4 hard=8 tcap=2", "sink 0 lvl=0", "logger 0 sinks=0 lvl=0", "start", "T 1 start", "T 2 start",
+            "L 2 0 4 10", "L 1 0 4 3900", "L 1 0 4 3900", "L 1 0 4 3900", "L 1 0 4 3900", "T 1 exit"] +
+            ["K 2000000", "P", "R 1", "P"] * 4 + ["T 1 exit"] +      # (blocking build: the parked call returns first)
+            ["K 2000000", "P", "R 1", "R 2", "P"] * 14 + ["P", "P", "Q", "X"]))
     # backtrace: wrap, flush by level, explicit flush
     out.append(("dir_backtrace", [
         "cfg grace=0 soft=4 hard=8 tcap=2", "sink 0 lvl=0", "logger 0 sinks=0 lvl=0", "start", "T 1 start",
